@@ -126,6 +126,7 @@ func (g *gen) natConst(rel, name, lean string) {
 // ---- pure numeric functions -------------------------------------------------------------------
 
 type fnTr struct {
+	round bool // rounded variant: every float operation result passes through `fl`
 	g     *gen
 	env   map[string]string // ident -> "Rat" | "Int"
 	funcs map[string]string // callable Go name -> Lean name (same file set)
@@ -265,13 +266,20 @@ func (t *fnTr) expr(e ast.Expr, want string) string {
 			if x.Op == token.QUO && ty == "Int" {
 				fail("integer division is outside the fragment: %s", t.g.src(e))
 			}
-			return "(" + t.expr(x.X, ty) + " " + x.Op.String() + " " + t.expr(x.Y, ty) + ")"
+			r := "(" + t.expr(x.X, ty) + " " + x.Op.String() + " " + t.expr(x.Y, ty) + ")"
+			if t.round && ty == "Rat" {
+				return "(fl " + r + ")"
+			}
+			return r
 		}
 	case *ast.CallExpr:
 		name := callName(x)
 		switch {
 		case name == "float64" && len(x.Args) == 1:
 			if t.typeOf(x.Args[0]) == "Int" {
+				if t.round {
+					return "(fl ((" + t.expr(x.Args[0], "Int") + " : Int) : Rat))"
+				}
 				return "((" + t.expr(x.Args[0], "Int") + " : Int) : Rat)"
 			}
 			return t.expr(x.Args[0], "Rat")
@@ -292,10 +300,16 @@ func (t *fnTr) expr(e ast.Expr, want string) string {
 			}
 		case strings.HasSuffix(name, ".Seconds") && len(x.Args) == 0:
 			sel := x.Fun.(*ast.SelectorExpr)
+			if t.round { // Duration.Seconds(): float64(sec) + float64(nsec)/1e9 — two roundings
+				return "(fl (fl (((" + t.expr(sel.X, "Int") + " : Int) : Rat) / 1000000000)))"
+			}
 			return "(((" + t.expr(sel.X, "Int") + " : Int) : Rat) / 1000000000)"
 		default:
 			if ln, ok := t.funcs[name]; ok {
 				parts := []string{ln}
+				if t.round {
+					parts = []string{ln + "Fl", "fl"}
+				}
 				for _, a := range x.Args {
 					parts = append(parts, t.expr(a, t.typeOf(a)))
 				}
@@ -365,7 +379,11 @@ func (t *fnTr) stmts(ss []ast.Stmt, ret string, indent string) string {
 
 type fnSpec struct{ rel, name, lean string }
 
-func (g *gen) numericFuncs(specs []fnSpec) {
+func (g *gen) numericFuncs(specs []fnSpec) { g.numericFuncsR(specs, false) }
+
+// numericFuncsR: with round=true emits `<name>Fl (fl : Rat → Rat) ...` where every float operation
+// result passes through `fl` (the rounding function of the floating-point format).
+func (g *gen) numericFuncsR(specs []fnSpec, round bool) {
 	funcs := map[string]string{}
 	rets := map[string]string{}
 	decls := map[string]*ast.FuncDecl{}
@@ -394,8 +412,13 @@ func (g *gen) numericFuncs(specs []fnSpec) {
 	}
 	for _, s := range specs {
 		fd := decls[s.name]
-		t := &fnTr{g: g, env: map[string]string{}, funcs: funcs, rets: rets}
+		t := &fnTr{g: g, env: map[string]string{}, funcs: funcs, rets: rets, round: round}
 		var params []string
+		lname := s.lean
+		if round {
+			params = append(params, "(fl : Rat → Rat)")
+			lname += "Fl"
+		}
 		for _, f := range fd.Type.Params.List {
 			ty := leanType(f.Type, tps[s.name])
 			if ty == "" {
@@ -407,7 +430,7 @@ func (g *gen) numericFuncs(specs []fnSpec) {
 			}
 		}
 		g.p("/-- `%s` in %s (float64 read as ℚ, time.Duration as Int nanoseconds) -/", s.name, s.rel)
-		g.p("def %s %s : %s :=", s.lean, strings.Join(params, " "), rets[s.name])
+		g.p("def %s %s : %s :=", lname, strings.Join(params, " "), rets[s.name])
 		g.p("%s", t.stmts(fd.Body.List, rets[s.name], "  "))
 		g.p("")
 	}
